@@ -98,7 +98,7 @@ def run_job(prop, hname, params, tier, seed):
     res.update(paths=st.paths, aborted=st.aborted, forks=st.forks, q_unsat=st.q_unsat, q_sat=st.q_sat,
                q_unknown=st.q_unknown, solver_s=round(st.solver_s, 3), proved=st.proved, covers=st.covers,
                unknowns=st.unknowns[:20], n_unknown=len(st.unknowns), div_sites=st.div_sites, assumes=st.assumes,
-               samples=st.samples, assumed_feasible=st.assumed_feasible, soft_unknown=st.soft_unknown, label_s={k: round(v, 2) for k, v in st.label_s.items()})
+               samples=st.samples, assumed_feasible=st.assumed_feasible, cut_unsettled=st.cut_unsettled, soft_unknown=st.soft_unknown, label_s={k: round(v, 2) for k, v in st.label_s.items()})
     try:
         res['files'] = list(uni.loaded_files)
     except Exception:
